@@ -35,7 +35,7 @@ func init() {
 func (Engine) Name() string { return "signsim" }
 func (Engine) Runs(prop, tier string) int {
 	if tier == "thorough" {
-		return 40000
+		return 120000
 	}
 	return 9000
 }
@@ -366,11 +366,13 @@ func runBDN(t *core.Tape, tier string, info *core.RunInfo) *core.Violation {
 	} else {
 		sc = bdn.NewSchemeOnG2(suite)
 	}
-	maxN := 7
-	if tier == "thorough" {
-		maxN = 10
+	// up to 10 signers in both tiers: the byte boundary of the mask (8 signers fill the last byte
+	// exactly, 9 open a second one) is where masks go wrong (seed C09d: Merge dropped the whole last
+	// byte for rosters that are a multiple of 8; the quick tier stopped at 7)
+	n := t.Range("cfg", 1, 10)
+	if t.Bool("cfg.boundary", 200) {
+		n = 8 + t.Intn("cfg.boundary", 2)
 	}
-	n := t.Range("cfg", 1, maxN)
 	msg := t.Bytes("cfg", 1+t.Intn("cfg", 40))
 	info.Config["session"], info.Config["suite"], info.Config["n"] = "bdn", c.name, n
 	privs := make([]kyber.Scalar, n)
